@@ -7,9 +7,9 @@ Require Import FstV.proofs.BuilderInv FstV.proofs.BuilderRegLemmas FstV.proofs.B
 Require Import Lia ZifyN ZifyBool ZifyNat.
 
 Definition sentinel (n : bnode) : Prop := n_final n = true /\ n_trans n = [] /\ n_fout n = 0.
-Definition tiles_inv (E : store) (pre : list N) : Prop :=
+Definition tiles_inv (ver : N) (E : store) (pre : list N) : Prop :=
   forall fuel acc0, (length E < fuel)%nat ->
-    tiles 3 fuel (rev pre) (top_addr E) acc0 = Some (rev E ++ acc0).
+    tiles ver fuel (rev pre) (top_addr E) acc0 = Some (rev E ++ acc0).
 
 Lemma top_addr_bound E : store_ok E -> top_addr E <= 15 + NODE_MAX * len E.
 Proof.
@@ -46,16 +46,17 @@ Qed.
 Section Codec.
 Hypothesis Hcodec : codec_statement.
 
-Lemma tiles_extend E pre la n cs :
+Lemma tiles_extend ver E pre la n cs :
+  1 <= ver <= 3 ->
   store_ok E -> len pre = top_addr E + 1 -> bnode_ok la (top_addr E + 1) n -> node_ok E n ->
-  compile_node 3 la (top_addr E + 1) n = Ok cs ->
-  tiles_inv E pre ->
+  compile_node ver la (top_addr E + 1) n = Ok cs ->
+  tiles_inv ver E pre ->
   let sz := len (concat cs) in
   let E' := (top_addr E + sz, mkSnode (n_final n) (n_fout n) (n_trans n) sz) :: E in
-  0 < sz /\ store_ok E' /\ tiles_inv E' (pre ++ concat cs).
+  0 < sz /\ store_ok E' /\ tiles_inv ver E' (pre ++ concat cs).
 Proof.
-  intros HE Hpre Hbn Hn Hc Ht sz E'.
-  destruct (Hcodec 3 la (top_addr E + 1) n cs pre) as (Hpos & Hspec); try lia; auto.
+  intros Hver HE Hpre Hbn Hn Hc Ht sz E'.
+  destruct (Hcodec ver la (top_addr E + 1) n cs pre) as (Hpos & Hspec); try lia; auto.
   fold sz in Hpos, Hspec.
   replace (top_addr E + 1 + sz - 1) with (top_addr E + sz) in Hspec by lia.
   assert (Hsz : sz <= NODE_MAX).
@@ -114,19 +115,26 @@ Section Compile.
 Hypothesis Hcodec : codec_statement.
 Hypothesis Htotal : compile_total_statement.
 
-Lemma compile_ok ty E b n b' r :
-  minv ty E b -> node_ok E n ->
+Lemma compile_ok ver ty E b n b' r :
+  1 <= ver <= 3 ->
+  minv ver ty E b -> node_ok E n ->
   NODE_MAX * (len E + 1) + 100 < U64 ->
   compile b n = (b', r) ->
-  exists E' a, r = Ok a /\ minv ty E' b' /\
+  exists E' a, r = Ok a /\ minv ver ty E' b' /\
     b_stack b' = b_stack b /\ b_last b' = b_last b /\ b_len b' = b_len b /\
     ((E' = E /\ ((a = 0 /\ sentinel n) \/ exists s, In (a, s) E /\ bn_of s = n)) \/
-     (exists s, E' = (a, s) :: E /\ bn_of s = n)).
+     (exists s, E' = (a, s) :: E /\ bn_of s = n)) /\
+    strip E' = BuilderBasics.compile_log b n ++ strip E.
 Proof.
-  intros (HE & HB & HR) Hn Hsize Hc. unfold compile in Hc.
+  intros Hver (HE & HB & HR) Hn Hsize Hc. pose proof Hc as Hc0. unfold compile in Hc.
+  assert (Hlog : BuilderBasics.compile_log b n =
+            if n_final n && (match n_trans n with [] => true | _ => false end) && (n_fout n =? 0) then []
+            else match snd (reg_entry (b_reg b) n) with Found _ => [] | _ =>
+                   match snd (compile b n) with Ok a => [(a, n)] | _ => [] end end) by reflexivity.
   destruct (n_final n && (match n_trans n with [] => true | _ => false end) && (n_fout n =? 0)) eqn:Hs.
   { apply sentinel_test in Hs. inversion Hc; subst. exists E, 0.
-    split; [reflexivity|]. split; [unfold minv; auto|]. do 3 (split; [reflexivity|]). left. auto. }
+    split; [reflexivity|]. split; [unfold minv; auto|]. do 3 (split; [reflexivity|]).
+    split; [left; auto|]. rewrite Hlog. reflexivity. }
   assert (Hns : ~ sentinel n) by (intro X; apply sentinel_test in X; congruence).
   destruct (reg_entry (b_reg b) n) as [reg0 e] eqn:He.
   pose proof (reg_entry_ok E _ _ _ _ HR He) as Hre.
@@ -136,15 +144,16 @@ Proof.
     inversion Hc; subst; clear Hc. destruct Hre as (Hr' & s & Hin & Hs').
     exists E, a. split; [reflexivity|]. split.
     { split; [exact HE|]. split; [constructor; cbn [b_version b_count b_out b_last_addr body]; auto|cbn [b_reg]; exact Hr']. }
-    do 3 (split; [reflexivity|]). left. split; auto. right. eauto.
+    do 3 (split; [reflexivity|]). split; [left; split; auto; right; eauto|].
+    rewrite Hlog. reflexivity.
   - (* NotFound: the node is written *)
     pose proof (top_addr_bound _ HE) as Htb.
     assert (Hbn : bnode_ok (b_last_addr b) (top_addr E + 1) n).
     { apply bnode_ok_of; auto. unfold NODE_MAX, U64 in *. lia. }
-    destruct (Htotal 3 (b_last_addr b) (top_addr E + 1) n) as (cs & Hcs); try lia; auto.
+    destruct (Htotal ver (b_last_addr b) (top_addr E + 1) n) as (cs & Hcs); try lia; auto.
     assert (Hcs' : compile_node (b_version b) (b_last_addr b) (b_count b) n = Ok cs) by (rewrite Bver, Bcnt; exact Hcs).
     rewrite Hcs' in Hc.
-    destruct (tiles_extend Hcodec E (body b) (b_last_addr b) n cs HE) as (Hpos & HE' & Ht'); auto; try lia.
+    destruct (tiles_extend Hcodec ver E (body b) (b_last_addr b) n cs Hver HE) as (Hpos & HE' & Ht'); auto; try lia.
     set (sz := len (concat cs)) in *.
     set (s := mkSnode (n_final n) (n_fout n) (n_trans n) sz) in *.
     inversion Hc; subst b' r; clear Hc.
@@ -157,21 +166,22 @@ Proof.
       * constructor; cbn [b_version b_count b_last_addr top_addr]; auto; try lia.
         -- change (len (body (b_write b cs)) = b_count b + sz). rewrite body_write.
            rewrite len_app. fold sz. lia.
-        -- change (firstn 16 (body (b_write b cs)) = u64_le 3 ++ u64_le ty). rewrite body_write.
+        -- change (firstn 16 (body (b_write b cs)) = u64_le ver ++ u64_le ty). rewrite body_write.
            rewrite firstn_app. replace (16 - length (body b))%nat with 0%nat.
            2:{ pose proof (store_top_ge _ HE). unfold len in Blen. lia. }
            cbn [firstn]. rewrite app_nil_r. exact Bhdr.
-        -- change (tiles_inv ((top_addr E + sz, s) :: E) (body (b_write b cs))). rewrite body_write. exact Ht'.
+        -- change (tiles_inv ver ((top_addr E + sz, s) :: E) (body (b_write b cs))). rewrite body_write. exact Ht'.
       * cbn [b_reg]. apply Hre. destruct n; reflexivity.
-    + repeat split; auto. right. exists s. split; auto. destruct n; reflexivity.
+    + do 3 (split; [reflexivity|]). split; [right; exists s; split; auto; destruct n; reflexivity|].
+      rewrite Hlog, Hc0. cbn [snd strip map fst app b_write b_count]. f_equal. f_equal; [rewrite chunks_len_concat; fold sz; lia|destruct n; reflexivity].
   - (* Rejected: the node is written, the registry is untouched *)
     pose proof (top_addr_bound _ HE) as Htb.
     assert (Hbn : bnode_ok (b_last_addr b) (top_addr E + 1) n).
     { apply bnode_ok_of; auto. unfold NODE_MAX, U64 in *. lia. }
-    destruct (Htotal 3 (b_last_addr b) (top_addr E + 1) n) as (cs & Hcs); try lia; auto.
+    destruct (Htotal ver (b_last_addr b) (top_addr E + 1) n) as (cs & Hcs); try lia; auto.
     assert (Hcs' : compile_node (b_version b) (b_last_addr b) (b_count b) n = Ok cs) by (rewrite Bver, Bcnt; exact Hcs).
     rewrite Hcs' in Hc.
-    destruct (tiles_extend Hcodec E (body b) (b_last_addr b) n cs HE) as (Hpos & HE' & Ht'); auto; try lia.
+    destruct (tiles_extend Hcodec ver E (body b) (b_last_addr b) n cs Hver HE) as (Hpos & HE' & Ht'); auto; try lia.
     set (sz := len (concat cs)) in *.
     set (s := mkSnode (n_final n) (n_fout n) (n_trans n) sz) in *.
     inversion Hc; subst b' r; clear Hc.
@@ -184,13 +194,14 @@ Proof.
       * constructor; cbn [b_version b_count b_last_addr top_addr]; auto; try lia.
         -- change (len (body (b_write b cs)) = b_count b + sz). rewrite body_write.
            rewrite len_app. fold sz. lia.
-        -- change (firstn 16 (body (b_write b cs)) = u64_le 3 ++ u64_le ty). rewrite body_write.
+        -- change (firstn 16 (body (b_write b cs)) = u64_le ver ++ u64_le ty). rewrite body_write.
            rewrite firstn_app. replace (16 - length (body b))%nat with 0%nat.
            2:{ pose proof (store_top_ge _ HE). unfold len in Blen. lia. }
            cbn [firstn]. rewrite app_nil_r. exact Bhdr.
-        -- change (tiles_inv ((top_addr E + sz, s) :: E) (body (b_write b cs))). rewrite body_write. exact Ht'.
+        -- change (tiles_inv ver ((top_addr E + sz, s) :: E) (body (b_write b cs))). rewrite body_write. exact Ht'.
       * cbn [b_reg]. subst reg0. apply reg_ok_cons. exact HR.
-    + repeat split; auto. right. exists s. split; auto. destruct n; reflexivity.
+    + do 3 (split; [reflexivity|]). split; [right; exists s; split; auto; destruct n; reflexivity|].
+      rewrite Hlog, Hc0. cbn [snd strip map fst app b_write b_count]. f_equal. f_equal; [rewrite chunks_len_concat; fold sz; lia|destruct n; reflexivity].
 Qed.
 End Compile.
 
@@ -198,8 +209,8 @@ End Compile.
 Lemma Forall_concat {A} (P : A -> Prop) (ls : list (list A)) : Forall (Forall P) ls -> Forall P (concat ls).
 Proof. induction 1; cbn [concat]; [constructor|]. apply Forall_app. auto. Qed.
 
-Lemma compile_bbytes ty E b n b' r :
-  minv ty E b -> node_ok E n ->
+Lemma compile_bbytes ver ty E b n b' r :
+  minv ver ty E b -> node_ok E n ->
   NODE_MAX * (len E + 1) + 100 < U64 ->
   compile b n = (b', r) -> bbytes b -> bbytes b'.
 Proof.
